@@ -379,6 +379,13 @@ class Pervaporation:
                     calculation_type=calculation_type,
                 )
             )
+            if not all(
+                -float("inf") < flux < float("inf") for flux in partial_fluxes[step]
+            ):
+                raise ValueError(
+                    "Partial fluxes are not finite at step %s: decrease delta_hours"
+                    % step
+                )
 
             permeate_composition.append(
                 Composition(
@@ -546,6 +553,13 @@ class Pervaporation:
                     calculation_type=calculation_type,
                 )
             )
+            if not all(
+                -float("inf") < flux < float("inf") for flux in partial_fluxes[step]
+            ):
+                raise ValueError(
+                    "Partial fluxes are not finite at step %s: decrease delta_hours"
+                    % step
+                )
 
             permeate_composition.append(
                 Composition(
@@ -1106,6 +1120,13 @@ class Pervaporation:
                     calculation_type=calculation_type,
                 )
             )
+            if not all(
+                -float("inf") < flux < float("inf") for flux in partial_fluxes[step]
+            ):
+                raise ValueError(
+                    "Partial fluxes are not finite at step %s: decrease delta_hours"
+                    % step
+                )
 
             permeate_composition.append(
                 Composition(
@@ -1416,6 +1437,13 @@ class Pervaporation:
                     calculation_type=calculation_type,
                 )
             )
+            if not all(
+                -float("inf") < flux < float("inf") for flux in partial_fluxes[step]
+            ):
+                raise ValueError(
+                    "Partial fluxes are not finite at step %s: decrease delta_hours"
+                    % step
+                )
 
             permeate_composition.append(
                 Composition(
